@@ -25,6 +25,11 @@ def asserted_precondition(body, f, site):
     stays a condition: it may stop a call the property says completes."""
     if not body.asserted(f, site):
         return False
+    return is_documented_precondition(body, f)
+
+
+def is_documented_precondition(body, f):
+    """the shape part of asserted_precondition"""
     from core import strip_load as sl
     name = getattr(body, "name", "")
     if f[0] == "in" and f[2] == frozenset(["Some"]) and sl(f[1])[0] == "discr":
